@@ -838,6 +838,23 @@ func streamSplits(rep *Report, tier string, seed uint64) {
 				} else if !bytes.Equal(gw, gs) {
 					orc = append(orc, fmt.Sprintf("C10:StringBuilder result depends on how the payload was split: whole %q, pieces %q", gw, gs))
 				}
+				// escaping does not depend on what the previous call left behind: after an unsafe call whose envelope is
+				// elided (empty payload, payload ending in a line feed), after a mode switch, or after nothing at all, a safe
+				// payload is escaped the same — the text outside envelopes is the line feeds of the first call followed by
+				// EscapeMarkers(payload), with nothing of the payload taken for already escaped
+				if i%4 == 0 {
+					p0 := [][]byte{nil, []byte("\n"), []byte("a\n"), []byte("a"), []byte("‹\n")}[r.Intn(5)]
+					short := append(append([]byte(nil), pay...), 'z')
+					var got []byte
+					if pm3 := safely(func() { _, got = execBld([]bop{{tag: "us", p: p0}, {tag: "ss", p: short}}) }); pm3 != "" {
+						orc = append(orc, "C11:StringBuilder write sequence panicked: "+pm3)
+					} else {
+						want := append(bytes.Repeat([]byte("\n"), bytes.Count(p0, []byte("\n"))), redact.EscapeMarkers(short)...)
+						if utf8.Valid(short) && !bytes.Equal(dropEnvs(got), want) {
+							orc = append(orc, fmt.Sprintf("C10:a safe payload is escaped differently after UnsafeString(%q): outside envelopes %q, want %q (whole output %q)", p0, dropEnvs(got), want, got))
+						}
+					}
+				}
 				emit(Case{Line: opsLine("buf", whole), Real: aw, Nontriv: hasMarker(pay), Kind: "split:whole"})
 				emit(Case{Line: opsLine("buf", split), Real: as, Oracle: orc, Nontriv: hasMarker(pay), Kind: fmt.Sprintf("split:%dpieces", len(split)-1)})
 			}
